@@ -29,6 +29,7 @@ class Continue(Exception):
 
 MAX_DEPTH = 60
 LOOPS = {}          # (qualname, ordinal) -> loop contract (see pyvc.loops)
+BOUNDS = {}         # (qualname, ordinal) -> max iterations explored when no contract applies (bounded stand-in)
 
 
 def bind_args(fn, node, args, kw):
